@@ -200,10 +200,11 @@ func c11JudgeWorldDB(r *Result, cs c11Case, db *gorm.DB) {
 	f := c11Families[cs.World.Family]
 	var got, want []string
 	var err error
-	if db != nil {
+	inTx := cs.Op.Ctx == "tx" || cs.Op.Ctx == "txprepare"
+	if db != nil && !inTx {
 		got, want, err = c11ExecCase(db, nil, cs)
 	}
-	if db == nil || err != nil || strings.Join(got, "\n") != strings.Join(want, "\n") {
+	if db == nil || inTx || err != nil || strings.Join(got, "\n") != strings.Join(want, "\n") {
 		got, want, err = c11RunCase(cs)
 	}
 	realPanic := err != nil && strings.HasPrefix(err.Error(), "panic:")
@@ -269,7 +270,7 @@ func init() {
 		} else if tier == "search" {
 			worlds = 1500
 		}
-		fams := []string{"S", "C", "R", "N", "U", "S", "R", "N", "C"}
+		fams := []string{"S", "C", "R", "N", "U", "E", "S", "R", "N", "C"}
 		c11JudgeWorld(r, c11F6bWitness(), true) // dedicated probe of the listed finding F6b
 		for i := 0; i < worlds && !expired(); i++ {
 			f := c11Families[fams[i%len(fams)]]
@@ -294,6 +295,9 @@ func init() {
 				}
 				if op.Unscoped {
 					r.H("world.unscoped", c11UnscopedShape(op))
+				}
+				if op.Ctx != "" {
+					r.H("world.ctx", op.Ctx+"/"+op.Kind)
 				}
 				if op.Kind == "query" {
 					if op.All {
